@@ -15,8 +15,11 @@ var (
 	badIDs     = []string{".", "..", "a/b", "a/../b", "", "x/.", "../../data/a", "a//b", "a/", "../id/a", "b/.."}
 	safeGrps   = []string{"g", "g1", "g2", "h", "zz"}
 	lowSepGrps = []string{"g", "g.1", "g-x", "g1", "g h"}
-	badGrps    = []string{"", ".", "..", "g/x", "../id/a", "g/", "g/../h"}
-	patterns   = []string{"", "", "*", "a*", "?", "a?", "ab", "*b*", "a*c", "??", "b", "*.*", "zz*"}
+	// RFC 3339 dates as the replay service's date indexes hold them: bytes below '/' ('-') but equal length, so
+	// outside the deviation index-order-separator: must list in (value, id) order
+	dateGrps = []string{"2017-01-02T00:00:00Z", "2017-01-01T10:00:00Z", "2017-01-02T00:00:01Z", "2016-12-31T23:59:59Z", "2017-01-01T10:00:00Z"}
+	badGrps  = []string{"", ".", "..", "g/x", "../id/a", "g/", "g/../h"}
+	patterns = []string{"", "", "*", "a*", "?", "a?", "ab", "*b*", "a*c", "??", "b", "*.*", "zz*"}
 	// patterns for pools with multi-segment ids: '*' and '?' never match a '/', a literal '/' does
 	slashPatterns = []string{"t/*", "*/*", "*/a", "t/?", "t/a*", "*/*/*", "u/*/w", "t*", "t?a", "*/", "tasks/*", "*", "?/?"}
 	limits        = []int{-1, -1, 0, 1, 2, 3, 100}
@@ -178,6 +181,9 @@ func genCase(r *kit.Rand, i int) []string {
 	switch class {
 	case 6:
 		g.grps = pickN(r, lowSepGrps, r.Range(2, 4))
+		if r.Chance(1, 3) {
+			g.grps = pickN(r, dateGrps, r.Range(2, 4))
+		}
 	case 7:
 		g.ids = append(pickN(r, badIDs, r.Range(1, 3)), pickN(r, wfIDs, 2)...)
 	case 8:
